@@ -151,6 +151,7 @@ def rotations(i):
 def plan(tier, seed):
     NS = 16 if tier == "quick" else 64
     jobs = [("rot", sh, NS, tier, seed) for sh in range(NS)]
+    jobs += [("wide", sh, 4, tier, seed) for sh in range(4)]
     if tier == "thorough":
         jobs += [("full", sh, NS, tier, seed) for sh in range(NS)]
         jobs += [("sched", k, 0, tier, seed) for k in range(6)]
@@ -161,6 +162,13 @@ def worker_init():
     vsched.install()
     g.quiet()
 
+
+WIDE = (
+    ((0, 1), (3, 4), (6, 7), (9, 10)),
+    ((0, 1), (3, 4), (6, 7), (9, 10), (12, 13)),
+    ((0, 2), (4, 5), (7, 9), (11, 12), (12, 13), (15, 16)),
+    ((0, 1), (1, 2), (4, 6), (5, 7), (9, 10), (12, 13)),
+)
 
 SCHED_CASES = [
     (((0, 1), (2, 3), (4, 5)), (0, 2, 4, 6), "end", "blosc", None),
@@ -202,6 +210,30 @@ def run_job(job):
             res.caps_hit.append(r.cap_hit)
         for k, msg, choices in r.violations[:3]:
             res.violation("sched:" + msg.split(" :: ")[0], msg[:300], dict(sched_case=a, choices=choices))
+        return res
+    if kind == "wide":
+        # 4-6 rows separated by gaps the rechunker may cut in (>= 2 grid steps = 1200 ns > DEFAULT_CHUNK_SPLIT_NS), stored in
+        # one to three chunks: one Rechunker.receive() / one rechunk-on-load of a stored chunk makes SEVERAL cuts
+        i = -1
+        with warnings.catch_warnings():
+            warnings.simplefilter("ignore")
+            for iv in WIDE:
+                gaps = [(iv[k][1] + iv[k + 1][0]) // 2 for k in range(len(iv) - 1) if iv[k + 1][0] - iv[k][1] >= 2]
+                cutsets = [()] + [(c,) for c in gaps] + [(gaps[0], gaps[-1])]
+                for cuts in cutsets:
+                    bounds = (0,) + tuple(sorted(set(cuts))) + (iv[-1][1] + 1,)
+                    for dn in DTYPES:
+                        for rc in (None, 1, 2, 3):
+                            for load in LOADS + ("rechunk3",):
+                                i += 1
+                                if i % ns != sh:
+                                    continue
+                                comp = COMPRESSORS[(i // ns + seed) % 4]
+                                pool = (i // ns) % 3 == 1
+                                res.evals += 1
+                                res.nt("wide", iv, bounds, dn, comp, rc, pool, load)
+                                res.count("wide_cases")
+                                write_and_read(res, iv, bounds, dn, comp, rc, pool, load)
         return res
     i = -1
     with warnings.catch_warnings():
@@ -248,5 +280,9 @@ def replay(case):
 def sanity(total, tier):
     if len(total.sets.get("config_pairs", ())) < 40:
         return f"only {len(total.sets.get('config_pairs', ()))} distinct (dtype, compressor, pool, load) combinations"
+    if total.counters.get("wide_cases", 0) < 1000:
+        return "fewer than 1000 wide-gap cases"
+    if max(total.sets.get("n_loaded_chunks", (0,))) < 4:
+        return "no load ever returned four or more chunks"
     if total.counters.get("rechunk_changed_layout", 0) < 10:
         return "rechunking almost never changed the layout"
